@@ -524,7 +524,7 @@ class Runner(History):
     def gen_flags(self, s, allow_alias=False):
         pool = ["\\Seen", "\\Answered", "\\Flagged", "\\Deleted", "\\Draft"] + KEYWORDS
         if allow_alias:
-            pool = pool + ALIAS_KEYWORDS
+            pool = pool + ALIAS_KEYWORDS + ODD_KEYWORDS
         fl = []
         for i in s.get("flags", []):
             f = pool[i % len(pool)]
@@ -642,6 +642,8 @@ class Runner(History):
         """After NOOP/CHECK/IDLE the view must equal the server's list.  The
         server's list = live model messages, except that deliveries the server
         has not noticed yet may be missing at the tail."""
+        if hasattr(self, "on_sync"):
+            self.on_sync(st, what)
         box = self.model.boxes[st.sel]
         live = box.msgs
         view = st.view
@@ -682,11 +684,6 @@ class Runner(History):
         targets = self.addressed(st, den, uid_mode)
         ambiguous = targets is None
         targets = targets or []
-        st.flag_reports = {}
-        others_reports_cleared = [o for o in self.ss.values() if o is not st and o.sel == st.sel]
-        for o in others_reports_cleared:
-            self._replay(o)
-            o.flag_reports = {}
         line = (b"UID " if uid_mode else b"") + f"STORE {text} {action}{'.SILENT' if silent else ''} {flag_text(fl)}".encode()
         r = await self.run_cmd(st, line, "STORE", uid_mode)
         out = {"r": r, "targets": targets, "action": action, "flags": fl, "silent": silent, "uid_mode": uid_mode, "before": before, "examine": st.examine, "ambiguous": ambiguous, "text": text, "box": st.sel}
@@ -736,9 +733,12 @@ class Runner(History):
         out = {"r": r, "targets": targets, "got": got, "nonpeek": nonpeek, "uid_mode": uid_mode, "examine": st.examine, "ambiguous": ambiguous, "box": st.sel}
         if r.ok and ambiguous and nonpeek:
             self.need_resync.add(st.sel)
+        out["newly_seen"] = []
         if r.ok and nonpeek and not st.examine:
             for m in targets:
                 if m.alive:
+                    if "\\Seen" not in m.flags:
+                        out["newly_seen"].append(m)
                     m.flags.add("\\Seen")
         self.settle_cmd(st)
         self.last_fetch = out
